@@ -24,7 +24,9 @@ TECHNIQUE = ("the real ScheduledFiniteBurnEvent/ScheduledFiniteManeuverEvent.han
              "acceleration, natural acceleration and initial state are solver variables. Every feasible path is explored; per path z3 proves the ring identity "
              "'velocity change returned by propagate() = g*H + a*D' and then decides, in linear real arithmetic over all paths at once, whether the delivered thrust duration D "
              "can differ from |[t_s,t_e] n [T0,T2]| (or the integrated span H from T2-T0). Counterexamples are replayed on the real SpecialPerturbations.propagate with the "
-             "real scipy solve_ivp; known findings are z3 regions over (T0, dt, t_s, t_e, D)")
+             "real scipy solve_ivp; known findings are z3 regions over (T0, dt, t_s, t_e, D). O4: the same with TWO finite thrusts of the agent in the event queue "
+             "(s1 < e1 < s2 < e2, own acceleration vectors a1, a2, four queue modes incl. the later burn queued first): per path the ring identity 'dv = g*H + a1*D1 + a2*D2', then "
+             "D_i against |[s_i,e_i] n [T0,T2]| over all paths. O5: a call with a burn still on at its end followed by an event-free call on the same dynamics object and on a fresh one")
 FLOAT_SEMANTICS = ("Real-ideal for the trajectory; the code's own floating-point guards are kept as written: fpe_equals compares with the double finfo(float).resolution (~1e-15) exactly, "
                    "numpy.spacing and brentq's 4 ulp tolerance enter as bounded solver variables")
 ENCODED = [
@@ -38,6 +40,7 @@ ENCODED = [
     "resonaate.dynamics.integration_events.finite_thrust:planeChangeThrust",
     "resonaate.dynamics.celestial:Celestial._prepEvents",
     "resonaate.dynamics.celestial:Celestial._applyEvents",
+    "resonaate.dynamics.celestial:Celestial._nextThrustBoundary",
     "resonaate.dynamics.celestial:Celestial.propagate",
     "resonaate.dynamics.special_perturbations:SpecialPerturbations._differentialEquation",
     "resonaate.agents.agent_base:Agent.prunePropagateEvents",
@@ -55,6 +58,7 @@ TOL_T = Fraction(1, 10 ** 6)  # s: tolerance on the delivered thrust duration
 T_MIN, T_MAX = 8, 2 ** 20
 DT_MIN, DT_MAX = 1, 3600
 BURN_MIN = Fraction(1, 1000)
+GAP_MIN = BURN_MIN  # O4: s2 - e1 >= 1e-3 s: touching burns (e1 == s2) are outside, see OUTSIDE
 
 BOUNDS = {
     "propagation calls": "2 consecutive calls [T0,T1],[T1,T2] (T1=T0+dt, T2=T1+dt) with event delivery and prunePropagateEvents before each, as in PropagateRegistration",
@@ -65,6 +69,16 @@ BOUNDS = {
                   "thorough adds: 1|2 steps chosen per call; 2 steps with re-trigger chains <= 2; 3 and 4 steps with chains <= 1; <= 12 calls per path",
     "tolerance": f"delivered duration compared with |[t_s,t_e] n [T0,T2]| within {float(TOL_T)} s (covers the <= 2^-33 s skipped at each restart, the 4 ulp root tolerance and the 1e-9 zones)",
     "vectors": "thrust acceleration a, natural acceleration g, initial state: all real vectors (symbolic in the per-path ring identity); event kinds: finite burn (ECI frame) and finite maneuver (spiral)",
+    "two burns (O4)": f"two finite thrusts A=[s1,e1], B=[s2,e2] of the same agent, e1 - s1, e2 - s2 >= {float(BURN_MIN)} s and s2 - e1 >= {float(GAP_MIN)} s (non-overlapping, not touching), accelerations a1, a2 any real vectors; "
+                      "same 2-call structure, same time bounds, zones and tolerance (per burn). Queue modes: chrono (delivery windows of the pipeline, A handed over before B), reversed (both queued before "
+                      "call 1 as [B, A]); thorough adds chrono-prequeued ([A, B] queued before call 1: a not-yet-started burn waits in the queue) and reversed-windows (delivery windows, B before A inside a step). "
+                      "Quick classes (zones of s1,e1,s2,e2): one-call (all four inside call 1, or all inside call 2), one-per-call (A inside call 1, B inside call 2), span-T1 (A starts before/inside call 1 "
+                      "and ends inside call 2, B starts inside call 2 and ends inside it or after T2), end-on-T1 (as span-T1 with e1 within 1e-9 of T1, exact coincidence included); 2 integrator steps per "
+                      "solve_ivp call, <= 14 solve_ivp calls per path. Thorough adds for these classes: 1|2 steps, 2 steps with re-trigger chains <= 2, 3 steps with chains <= 1 (<= 20 calls), the mixed kinds "
+                      "burn+maneuver / maneuver+burn, and - burn+burn, 2 steps - EVERY combination of the 7 zones for the four times (grouped by the zone of e1) in all four queue modes; each zone tuple shown inhabited",
+    "history (O5)": "call 1 [T0,T1] with one finite burn whose window contains T1 (start before/at/inside call 1, end inside call 2, at T2 or later), then call 2 [T1,T2] with scheduled_events None / [] / omitted "
+                    "on the same dynamics object and on a fresh one; 2 steps and 1 step per solve_ivp call (thorough: also 1|2 and 3); full-state equality with the fresh object in the 1-step configuration "
+                    "(identical integrator choices), velocity change = g*H with |H - dt| <= 1e-6 s in all",
 }
 OUTSIDE = [
     "the numerical trajectory (RK45 error control, gravity-gradient coupling of the thrust): one explicit stage per step in the stub; the replay integrates with the real scipy and reports the measured delta-v",
@@ -75,7 +89,10 @@ OUTSIDE = [
     "(observed on the real code: a burn starting at scenario time 0.0 with the first propagation starting at 0.0 does not return - restarts advance by 5e-324 s)",
     "Julian-date rounding of the event times (C05/C01): handleEvent's conversion is executed in exact reals (JulianDate cut to a real number); in the real pipeline a nominally aligned burn end is "
     "~4e-5 s off the grid, i.e. it falls into the 'inside' / 'boundary' classes of this harness",
-    "more than two consecutive steps; several simultaneous finite thrusts (Celestial keeps a single finite_thrust slot)",
+    "more than two consecutive steps; more than two finite thrusts in the queue; OVERLAPPING finite thrusts (Celestial keeps a single finite_thrust slot)",
+    f"TOUCHING burns (e1 == s2, and any gap below {float(GAP_MIN)} s): outside the bound s2 - e1 >= {float(GAP_MIN)} s. Separately noted limitation of the real code: the end of A and the start of B are then two "
+    "simultaneous terminal events and scipy's solve_ivp reports only the first of them, so which callback wins depends on the queue order",
+    "two burns of DIFFERENT agents / several agents sharing one dynamics object between their calls (O5 covers only: burn call followed by an event-free call)",
     "propagateBulk, station keeping, impulses (C01/C03)",
 ]
 ASSUMPTIONS = [
@@ -88,16 +105,24 @@ ASSUMPTIONS = [
     "JulianDate in data.events.finite_burn/finite_maneuver -> exact real with convertToScenarioTime(jd0) = (jd - jd0) * 24 * 3600",
     "driver mirrors PropagateRegistration.generateSubmission/asyncPropagate/processResults: deliver (handleEvent) when t_s <= T_{k+1} and t_e > T_k (the getRelevantEvents window), prune, propagate, advance time",
     "O1 maneuver kind: ntw2eci -> identity frame; O2-callables: ntw2eci -> a symbolic 3x3 matrix applied to both halves",
-    "cut: after the per-path ring identity dv = g*H + a*D is proved, the main query is over the linear terms H and D only",
+    "cut: after the per-path ring identity dv = g*H + a*D is proved, the main query is over the linear terms H and D only (O4: dv = g*H + a1*D1 + a2*D2, linear terms H, D1, D2)",
+    "O4 driver: the two event rows are handed to the agent (real handleEvent -> appendPropagateEvent, a fresh equal event object per hand-over) per queue mode - 'chrono'/'reversed-windows': each row when its "
+    "getRelevantEvents window is open (s_i <= T_{k+1} and e_i > T_k), in chronological / reverse order inside a step; 'reversed'/'chrono-prequeued': additionally both rows once before call 1 "
+    "(reverse / chronological order), which is how a queue [B, A] (or a waiting future burn) arises; the real prunePropagateEvents removes the duplicates and the expired burns before each call",
+    "O4 replay: real propagate + real scipy with the same hand-over; per burn the seconds during which Celestial.finite_thrust held that burn's callable, and independently the velocity difference to the "
+    "coasting run resolved by least squares along a1, a2 (replay vectors are linearly independent); reproduced only if the real run also matches the stub's predicted durations",
+    "O5: `dyn.finite_thrust is not None` after call 1 is read as a reachability guard only (each configuration must contain paths on which the first call ended with the thrust on); the oracle is over returned states",
     "replay: real SpecialPerturbations.propagate + real scipy; measured = seconds during which Celestial.finite_thrust was set (a wrapper around the real solve_ivp reads it per call) and, independently, the "
     "velocity difference to a coasting run; the wrapper passes first_step = tf - t0 on a distant orbit so that RK45 takes the longest steps it accepts (which steps the integrator takes is the stub's "
     "free choice; the run with RK45's own step selection at GEO is reported next to it)",
 ]
 LEVEL_TEXT = ("Bounded symbolic verification of the thrust switching logic over all real burn start/end times, step starts and step sizes for two consecutive propagation steps, under a "
-              "contract model of solve_ivp's event handling whose free choices are solver variables; the delivered delta-v of every feasible path is compared with a x |burn n window|.")
+              "contract model of solve_ivp's event handling whose free choices are solver variables; the delivered delta-v of every feasible path is compared with a x |burn n window|. "
+              "Extended to two non-overlapping finite thrusts of the agent in both queue orders (each burn's delivered duration) and to history independence of the dynamics object.")
 LEVEL_NOTE = ("solve_ivp is a contract stub (hash-pinned to the scipy source); numerical integration accuracy is outside; 2 steps, <= 4 integrator steps per call; times >= 8 s. "
-              f"Known findings {FINDING_OVERRUN} (burn end inside a propagation call: thrust runs to the end of the call) and {FINDING_SKIPPED} (burn end on the call end and burn start inside the "
-              "last integrator step: burn never starts); outside these two regions the delivered duration is proved exact.")
+              f"The former findings {FINDING_OVERRUN} (burn end inside a propagation call: thrust runs to the end of the call) and {FINDING_SKIPPED} (burn end on the call end and burn start inside the "
+              "last integrator step: burn never starts) are fixed in /repo (Celestial._nextThrustBoundary cuts the integration at thrust boundaries); their regions are kept for matching should they reappear. "
+              "Two burns: gap >= 1e-3 s between them (touching/overlapping burns outside); quick covers four (s1,e1,s2,e2) zone classes in two queue orders, thorough every zone combination in four queue modes.")
 
 ZONES = ("lt0", "at0", "in0", "at1", "in1", "at2", "gt2")
 
@@ -850,14 +875,648 @@ def o2_prune(rep, tier):
 
 
 # ------------------------------------------------------------------------------------------------------------------------
+# O4: TWO finite thrusts of the same agent in the event queue (non-overlapping, e1 + 1e-3 <= s2), both queue orders
+# ------------------------------------------------------------------------------------------------------------------------
+TKEYS = ("s1", "e1", "s2", "e2")
+# queue mode -> (both events appended before the first step, second burn handed over before the first one)
+QUEUE_MODES = {
+    "chrono": (False, False),  # the pipeline's delivery windows, chronological inside a step: queue [A, B]
+    "reversed": (True, True),  # both burns queued before the first step, later burn first: queue [B, A] throughout
+    "chrono-prequeued": (True, False),  # both queued before the first step, [A, B]: a not-yet-started burn waits in the queue during call 1
+    "reversed-windows": (False, True),  # the pipeline's delivery windows, later burn first inside a step
+}
+A_REPLAY2 = {"burn": ([1.0e-5, -2.0e-5, 3.0e-5], [2.0e-5, 1.0e-5, -1.0e-5]), "maneuver": ([0.0, 1.0e-5, 0.0], [0.0, 2.0e-5, 0.0])}
+# classes: one set of zones (None = any zone) for each of s1, e1, s2, e2
+TWO_CLASSES = {
+    "one-call": [(("in0",), ("in0",), ("in0",), ("in0",)), (("in1",), ("in1",), ("in1",), ("in1",))],
+    "one-per-call": [(("in0",), ("in0",), ("in1",), ("in1",))],
+    "span-T1": [(("lt0", "in0"), ("in1",), ("in1",), ("in1", "gt2"))],
+    "end-on-T1": [(("lt0", "in0"), ("at1",), ("in1",), ("in1", "gt2"))],
+}
+TWO_UNIVERSE = {f"e1-{z}": [(None, (z,), None, None)] for z in ZONES}  # thorough: every zone of every time, grouped by the zone of the first burn's end
+
+
+def _tuples(spec):
+    """The concrete (zs1, ze1, zs2, ze2) zone tuples of a class: times increase, and two times at least 1e-3 s apart are never in the same 1e-9 zone."""
+    import itertools
+
+    out = []
+    for tup in itertools.product(*[(ZONES if s is None else s) for s in spec]):
+        idx = [ZONES.index(z) for z in tup]
+        if any(idx[k] > idx[k + 1] or (idx[k] == idx[k + 1] and tup[k].startswith("at")) for k in range(3)):
+            continue
+        out.append(tup)
+    return out
+
+
+def _zone_sets(terms, specs, T0, T1, T2):
+    """z3: the four times lie in (the union over the class's specs of) the given zone sets."""
+    alts = []
+    for spec in specs:
+        alts.append(z3.And(*[z3.Or(*[_zone(t, z, T0, T1, T2) for z in zs]) for t, zs in zip(terms, spec) if zs is not None] or [z3.BoolVal(True)]))
+    return z3.Or(*alts)
+
+
+def _sym_acc(kind, name):
+    if kind == "burn":
+        return reals(name, 3)
+    return np.array([SReal(0), real(f"{name}_1"), SReal(0)], dtype=object)  # spiral thrust: in-track magnitude only
+
+
+def _bounds2(T0, dt, s, e):
+    c = [T0 >= T_MIN, T0 <= T_MAX, dt >= DT_MIN, dt <= DT_MAX, s[1] - e[0] >= rv(GAP_MIN)]
+    for i in range(2):
+        c += [s[i] >= T_MIN, e[i] - s[i] >= rv(BURN_MIN), e[i] <= 2 * T_MAX]
+    return c
+
+
+def _deliveries(mode, k, relevant):
+    """Indices of the burns handed to the agent before propagation call k, in hand-over order (relevant(i): the getRelevantEvents window of burn i is open)."""
+    prequeued, rev = QUEUE_MODES[mode]
+    order = (1, 0) if rev else (0, 1)
+    out = list(order) if (prequeued and k == 0) else []
+    return out + [i for i in order if relevant(i)]
+
+
+def _run2(kinds, mode, specs, steps, retrig, calls, pins=()):
+    """Two consecutive steps of one agent with TWO finite thrust events; returns (final state, stub, number of event-log records)."""
+    T0, dt, jd0 = real("T0"), real("dt"), real("jd0")
+    s, e = [real("s1"), real("s2")], [real("e1"), real("e2")]
+    acc = [_sym_acc(kinds[0], "a1"), _sym_acc(kinds[1], "a2")]
+    g, x0 = reals("g", 3), reals("x", 6)
+    T1, T2 = T0 + dt, T0 + dt + dt
+    assume(*_bounds2(T0.t, dt.t, [v.t for v in s], [v.t for v in e]))
+    for name, val in pins:
+        assume({"T0": T0, "dt": dt, "s1": s[0], "e1": e[0], "s2": s[1], "e2": e[1]}[name].t == rv(val))
+    assume(_zone_sets([s[0].t, e[0].t, s[1].t, e[1].t], specs, T0.t, T1.t, T2.t))
+    dyn = _dynamics()
+    dyn.init_julian_date = jd0
+    ivp = SolveIvpContract(steps=steps, max_calls=calls, max_retrigger=retrig)
+    agent = _new_agent(T0, jd0)
+    rows = [_event_row(kinds[i], jd0, s[i], e[i], acc[i]) for i in range(2)]
+    from resonaate.agents.agent_base import Agent
+    state = x0
+    with _World(ivp, g, ntw=(lambda st, v: v) if "maneuver" in kinds else None) as w:
+        for k in range(2):
+            nxt = agent._time + dt
+            for i in _deliveries(mode, k, lambda i: bool((s[i] <= nxt) & (e[i] > agent._time))):
+                rows[i].handleEvent(agent)
+            Agent.prunePropagateEvents(agent)
+            state = dyn.propagate(agent._time, nxt, state, station_keeping=[], scheduled_events=agent.propagate_event_queue)
+            agent._time = nxt
+    return state, ivp, len(w.log.records)
+
+
+class _Vars2:
+    def __init__(self, kinds):
+        self.kinds = kinds
+        self.T0, self.dt = z3.Real("T0"), z3.Real("dt")
+        self.s, self.e = [z3.Real("s1"), z3.Real("s2")], [z3.Real("e1"), z3.Real("e2")]
+        self.a = [[z3.Real(f"a{i + 1}_{c}") for c in range(3)] if kinds[i] == "burn" else [None, z3.Real(f"a{i + 1}_1"), None] for i in range(2)]
+        self.g = [z3.Real(f"g_{c}") for c in range(3)]
+        self.x = [z3.Real(f"x_{c}") for c in range(6)]
+        self.Dur, self.Hsp = [z3.Real("Dur1"), z3.Real("Dur2")], z3.Real("Hsp")
+        self.T1, self.T2 = self.T0 + self.dt, self.T0 + 2 * self.dt
+        self.L = [_overlap(self.s[i], self.e[i], self.T0, self.T2) for i in range(2)]
+        self.span = self.T2 - self.T0
+        self.times = dict(zip(TKEYS, (self.s[0], self.e[0], self.s[1], self.e[1])))
+
+    def bounds(self):
+        return _bounds2(self.T0, self.dt, self.s, self.e)
+
+    def zones(self, specs):
+        return _zone_sets([self.times[k] for k in TKEYS], specs, self.T0, self.T1, self.T2)
+
+
+def _affine_parts2(V, vt):
+    """Per component c: (dv_c, H_c, [D1_c, D2_c]) with  dv_c =?= g_c H_c + a1_c D1_c + a2_c D2_c  (coefficients read off by substituting unit vectors;
+    the equality is then PROVED as a ring identity per path)."""
+    syms = [x for a in V.a for x in a if x is not None] + V.g
+    out = []
+    for c in range(3):
+        base = vt[c] - V.x[3 + c]
+
+        def at(one):
+            return z3.simplify(z3.substitute(base, *[(x, z3.RealVal(1 if x is one else 0)) for x in syms]))
+
+        out.append((base, at(V.g[c]), [at(V.a[i][c]) if V.a[i][c] is not None else None for i in range(2)]))
+    return out
+
+
+def _times_keys(d, keys):
+    """Concrete doubles of the model's times (see _times)."""
+    T0, dt = float(d["T0"]), float(d["dt"])
+    grid = [T0, T0 + dt, T0 + dt + dt]
+    out = {}
+    for key in keys:
+        rel = d.get(key + "_rel")
+        if rel:
+            base, off = grid[rel[0]], rel[1]
+            if abs(off) < RES_D:
+                t = base
+            else:
+                t = base + off
+                if t == base:
+                    t = float(np.nextafter(base, np.inf if off > 0 else -np.inf))
+        else:
+            t = float(d[key])
+        out[key] = t
+    return T0, dt, out
+
+
+def _real_run2(d, with_event=True, steer=True):
+    """Two real SpecialPerturbations.propagate calls with TWO finite thrusts of one agent (real scipy, real Agent.appendPropagateEvent / prunePropagateEvents),
+    hand-over as in the symbolic run (a fresh, equal event object at every hand-over, as handleEvent makes them).
+
+    Returns (final state, [thrust-on seconds with burn 1's callable in Celestial.finite_thrust, same for burn 2, seconds with any other callable], info)."""
+    from resonaate.agents.agent_base import Agent
+    from resonaate.dynamics import celestial as CEL
+    from resonaate.dynamics.integration_events import finite_thrust as FT
+    from resonaate.dynamics.integration_events.finite_thrust import ScheduledFiniteBurn, ScheduledFiniteManeuver, eciBurn, spiralThrust
+
+    dyn = _dynamics()
+    T0, dt, tt = _times_keys(d, TKEYS)
+    s, e = [tt["s1"], tt["s2"]], [tt["e1"], tt["e2"]]
+    kinds = d.get("kinds", ["burn", "burn"])
+    mode = d.get("mode", "chrono")
+    acc = [np.array(v, dtype=float) for v in d.get("acc", [A_REPLAY2[kinds[i]][i] for i in range(2)])]
+    x = np.array(d.get("x0", X_FAR if steer else X_GEO), dtype=float)
+    agent = _new_agent(T0, None)
+
+    def make(i):
+        if kinds[i] == "burn":
+            return ScheduledFiniteBurn(s[i], e[i], partial(eciBurn, acc_vector=acc[i]), 7)
+        return ScheduledFiniteManeuver(s[i], e[i], partial(spiralThrust, magnitude=float(acc[i][1])), 7)
+
+    def which(ft):
+        for i in range(2):
+            if kinds[i] == "burn" and ft.func is eciBurn and np.array_equal(ft.keywords["acc_vector"], acc[i]):
+                return i
+            if kinds[i] == "maneuver" and ft.func is spiralThrust and ft.keywords["magnitude"] == float(acc[i][1]):
+                return i
+        return 2
+
+    on = [0.0, 0.0, 0.0]
+    calls = []
+    real_ivp = CEL.solve_ivp
+
+    def spy(fun, t_span, y0, **kw):
+        if steer:
+            kw = dict(kw, first_step=float(t_span[1]) - float(t_span[0]))
+        sol = real_ivp(fun, t_span, y0, **kw)
+        ft = dyn.finite_thrust
+        w = None if ft is None else which(ft)
+        calls.append((float(t_span[0]), float(sol.t[-1]), None if w is None else w + 1, len(sol.t) - 1))
+        if w is not None:
+            on[w] += float(sol.t[-1]) - float(t_span[0])
+        return sol
+
+    log = _EventLog()
+    shadows = [shadow(CEL, solve_ivp=spy)]
+    if not os.environ.get("C15_REPLAY_RAY"):
+        shadows.append(shadow(FT, EventStack=log))
+    for sh in shadows:
+        sh.__enter__()
+    queues = []
+    try:
+        for k in range(2):
+            nxt = agent._time + dt
+            if with_event:
+                for i in _deliveries(mode, k, lambda i: s[i] <= nxt and e[i] > agent._time):
+                    agent.appendPropagateEvent(make(i))
+            Agent.prunePropagateEvents(agent)
+            queues.append([[float(ev.start_time), float(ev.end_time)] for ev in agent.propagate_event_queue])
+            x = dyn.propagate(agent._time, nxt, x, scheduled_events=agent.propagate_event_queue)
+            agent._time = nxt
+    finally:
+        for sh in reversed(shadows):
+            sh.__exit__(None, None, None)
+    info = dict(tt, T0=T0, dt=dt, T2=agent._time, mode=mode, kinds=list(kinds), acc=[a.tolist() for a in acc])
+    info["event queue passed to propagate() call 1 / call 2"] = queues
+    info["solve_ivp_calls(t0,t_end,burn whose callable is in finite_thrust,steps)"] = calls[:16]
+    return x, on, info
+
+
+def replay_o4(d):
+    """Reproduced = on the real two-step run some burn delivers a thrust that differs from a_i * |[s_i,e_i] n [T0,T2]| by more than the tolerance AND the
+    real run does what the stub predicted (otherwise the contract is wrong: harness error, not a violation).
+
+    Two measurements per burn: (i) seconds during which Celestial.finite_thrust held that burn's callable, (ii) the velocity difference to the coasting
+    run resolved (least squares) along the two configured accelerations, in seconds of thrust.  As in replay_o1, (i) is compared with the tight
+    tolerance when both agree, else (ii) with a coarse one."""
+    xe, on, info = _real_run2(d, True, True)
+    x0, _, _ = _real_run2(d, False, True)
+    _, on_nat, info_nat = _real_run2(d, True, False)
+    T0, T2 = info["T0"], info["T2"]
+    want = [max(0.0, min(info[f"e{i}"], T2) - max(info[f"s{i}"], T0)) for i in (1, 2)]
+    A = np.array(info["acc"], dtype=float).T  # 3 x 2
+    dv = xe[3:] - x0[3:]
+    dv_sec = np.linalg.lstsq(A, dv, rcond=None)[0]
+    resid = float(np.linalg.norm(dv - A.dot(dv_sec)))
+    coarse = lambda x: 1e-3 * max(1.0, abs(x)) + 1e-4  # noqa: E731
+    consistent = all(abs(dv_sec[i] - on[i]) <= coarse(on[i]) for i in range(2)) and on[2] == 0.0 and resid <= 1e-3 * max(float(np.linalg.norm(dv)), 1e-12) + 1e-12
+    measured = [on[i] if consistent else float(dv_sec[i]) for i in range(2)]
+    err = [measured[i] - want[i] for i in range(2)]
+    thr = [0.5 * float(TOL_T) if consistent else coarse(want[i]) for i in range(2)]
+    detail = {"delivered_seconds_real": measured, "expected_seconds": want, "error_seconds": err, "thrust_on_seconds_real(burn1,burn2,other)": on,
+              "delta_v_seconds_real": dv_sec.tolist(), "delta_v_residual_not_along_a1_a2": resid, "thrust_applied_as_configured": bool(consistent),
+              "thrust_on_seconds_real_natural_rk45_steps_geo": on_nat, "delta_v_real_minus_coast": dv.tolist(), "delta_v_expected": A.dot(np.array(want)).tolist(),
+              "times": info, "natural_run_calls": info_nat["solve_ivp_calls(t0,t_end,burn whose callable is in finite_thrust,steps)"]}
+    bad = any(abs(err[i]) > thr[i] for i in range(2))
+    if "predicted_seconds" in d:
+        detail["predicted_seconds"] = d["predicted_seconds"]
+        detail["prediction_matches_real_run"] = bool(all(abs(d["predicted_seconds"][i] - measured[i]) <= (10 * float(TOL_T) if consistent else coarse(measured[i])) for i in range(2)))
+        bad = bad and detail["prediction_matches_real_run"]
+    return bad, detail
+
+
+def replay_raises2(d):
+    try:
+        _real_run2(d, True, True)
+    except Exception as ex:  # noqa: BLE001
+        return True, {"raised": f"{type(ex).__name__}: {ex}"[:400]}
+    return False, {"raised": None}
+
+
+def replay_hang2(d, limit_s=25):
+    import json
+    import subprocess
+    import sys
+
+    code = "import json, sys; import harness.c15 as H; d = json.loads(sys.argv[1]); x, on, info = H._real_run2(d, True, False); print('DONE', on)"
+    try:
+        r = subprocess.run([sys.executable, "-c", code, json.dumps(d)], capture_output=True, text=True, timeout=limit_s)
+        return False, {"returned": True, "stdout": r.stdout[-200:], "stderr": r.stderr[-300:]}
+    except subprocess.TimeoutExpired:
+        return True, {"returned": False, "note": f"two real propagate() calls did not finish within {limit_s} s (normally < 1 s)"}
+
+
+def replay_affine2(d):
+    """The velocity change caused by the two thrusts must lie in the plane spanned by the two configured accelerations, with non-negative multiples:
+    real two-step run, burns [65,75] and [90,100] s on a 60 s grid, against the coasting run."""
+    kinds = d.get("kinds", ["burn", "burn"])
+    dd = {"kinds": kinds, "mode": d.get("mode", "chrono"), "T0": 60.0, "dt": 60.0, "s1": 65.0, "e1": 75.0, "s2": 90.0, "e2": 100.0}
+    xe, on, info = _real_run2(dd, True, True)
+    x0, _, _ = _real_run2(dd, False, True)
+    A = np.array(info["acc"], dtype=float).T
+    dv = xe[3:] - x0[3:]
+    sec = np.linalg.lstsq(A, dv, rcond=None)[0]
+    resid = float(np.linalg.norm(dv - A.dot(sec)))
+    bad = resid > 1e-3 * max(float(np.linalg.norm(dv)), 1e-12) or any(on[i] > 0 and abs(sec[i]) < 1e-3 * on[i] for i in range(2)) or on[2] > 0
+    return bad, {"delta_v_real_minus_coast": dv.tolist(), "accelerations": info["acc"], "seconds_along_a1_a2": sec.tolist(), "part_outside_span": resid, "thrust_on_seconds_real": on}
+
+
+def _inputs_fn2(V, mode, with_pred=True, tag="o4"):
+    def inputs(m):
+        d = {"_replay": tag, "kinds": list(V.kinds), "mode": mode, "T0": mfloat(m, V.T0), "dt": mfloat(m, V.dt)}
+        for key, var in V.times.items():
+            d[key] = mfloat(m, var)
+            rel = _grid_rel(m, var, V.T0, V.dt)
+            if rel:
+                d[key + "_rel"] = rel
+        if with_pred:
+            d.update({"predicted_seconds": [mfloat(m, x) for x in V.Dur], "expected_seconds": [mfloat(m, x) for x in V.L], "predicted_integration_span": mfloat(m, V.Hsp)})
+        return d
+
+    return inputs
+
+
+def _paths2(rep, kinds, mode, specs, cfg, pins=()):
+    """Explore; prove per path that the velocity change is  g*H + a1*D1 + a2*D2  with H, D1, D2 the same for all components; return the disjuncts
+    path condition & Dur1 == D1 & Dur2 == D2 & Hsp == H  (linear real arithmetic)."""
+    steps, retrig, calls = cfg
+    tag = f"{mode}[{_cfg_tag(cfg)}]"
+    V = _Vars2(kinds)
+    res = explore(lambda: _run2(kinds, mode, specs, steps, retrig, calls, pins), max_paths=8000, max_depth=900, branch_timeout_ms=10000)
+    disj, n_on, n_bad = [], 0, 0
+    for i, r in enumerate(res):
+        if r.exc is not None:
+            if isinstance(r.exc, ContractBudget):
+                t0s = [c["t0"].t for c in r.exc.log]
+                progress = z3.And(*[t0s[k + 1] > t0s[k] for k in range(len(t0s) - 1)]) if len(t0s) > 1 else z3.BoolVal(True)
+                okp = rep.prove(f"{tag}: restart-progress#{i}", progress, r.constraints, timeout_ms=60000, inputs=_inputs_fn2(V, mode, with_pred=False, tag="hang2"), replay=replay_hang2,
+                                sample="every restart of the integration inside propagate() begins strictly later than the previous one (the loop terminates)")
+                if okp:
+                    rep.undecided("budget", f"{r.exc}")
+            else:
+                import traceback
+
+                tb = "".join(traceback.format_exception(r.exc))[-1200:]
+                rep.note(f"{tag} path {i} raised: {tb[-400:]}")
+                rep.prove(f"{tag}: no-exception#{i}", z3.BoolVal(False), r.constraints, timeout_ms=60000, inputs=_inputs_fn2(V, mode, with_pred=False, tag="raises2"), replay=replay_raises2,
+                          sample="the two propagation steps do not raise")
+            n_bad += 1
+            continue
+        state, ivp, nrec = r.out
+        vt = [(x.t if isinstance(x, SReal) else rv(x)) for x in (state[3 + c] for c in range(3))]
+        goals, Hs, Ds = [], [], ([], [])
+        for c, (base, H, D) in enumerate(_affine_parts2(V, vt)):
+            goals.append(base == V.g[c] * H + sum(V.a[j][c] * D[j] for j in range(2) if D[j] is not None))
+            Hs.append(H)
+            for j in range(2):
+                if D[j] is not None:
+                    Ds[j].append(D[j])
+        goals += [Hs[0] == h for h in Hs[1:]] + [Ds[j][0] == x for j in range(2) for x in Ds[j][1:]]
+        ok = rep.prove(f"{tag}: affine#{i}", z3.And(*goals), [], timeout_ms=20000, inputs=lambda m: {"kinds": list(kinds), "mode": mode, "_replay": "affine2"}, replay=replay_affine2,
+                       sample="velocity change returned by propagate() = g*H + a1*D1 + a2*D2 with H, D1, D2 (linear in the times) common to all components: ring identity per path")
+        if not ok:
+            rep.note(f"{tag}: path {i} is not of the form g*H + a1*D1 + a2*D2; remaining checks of this configuration skipped")
+            return V, None
+        disj.append(z3.And(*(r.constraints + [V.Dur[0] == Ds[0][0], V.Dur[1] == Ds[1][0], V.Hsp == Hs[0]])))
+        n_on += 1 if nrec else 0
+    rep.note(f"{'+'.join(kinds)} {tag}: paths={len(res)}, paths on which a thrust callback was requested={n_on}, unusable={n_bad}")
+    return V, disj
+
+
+def _o4_cfg(rep, kinds, mode, specs, cfg):
+    V, disj = _paths2(rep, kinds, mode, specs, cfg)
+    pre = f"{'+'.join(kinds)} {mode}[{_cfg_tag(cfg)}]"
+    if disj is None:
+        return
+    if not disj:
+        rep.error(f"{pre}: reach", "no path")
+        return
+    base = V.bounds() + [V.zones(specs), z3.Or(*disj)]
+    # vacuity: every zone tuple of the class is inhabited by a feasible path
+    for spec in specs:
+        for tup in _tuples(spec):
+            rep.reachable(f"{pre}: s1 {tup[0]} / e1 {tup[1]} / s2 {tup[2]} / e2 {tup[3]}", base + [_zone(V.times[k], z, V.T0, V.T1, V.T2) for k, z in zip(TKEYS, tup)])
+    sample = (f"{'+'.join(kinds)}, queue mode {mode}: velocity returned by two propagate() calls = v0 + g*(T2-T0) + a1*|[s1,e1] n [T0,T2]| + a2*|[s2,e2] n [T0,T2]| "
+              f"(each thrust duration within {float(TOL_T)} s)")
+    tol = rv(TOL_T)
+    goal = z3.And(_near(V.Dur[0], V.L[0], tol), _near(V.Dur[1], V.L[1], tol), _near(V.Hsp, V.span, tol))
+    kw = dict(timeout_ms=120000, inputs=_inputs_fn2(V, mode), replay=replay_o4)
+    whole = lambda x: x == z3.ToReal(z3.ToInt(x))  # noqa: E731
+    nice = [V.T0 == 60, V.dt == 60] + [whole(x) for x in V.times.values()] + [V.e[i] - V.s[i] <= 60 for i in range(2)]
+    rep.prove(f"{pre}: delivered[T0=dt=60s, whole seconds, burns<=60s]", goal, base + nice, sample=sample + " - special case 60 s grid, whole-second burn times, burns of at most 60 s", **kw)
+    rep.prove(f"{pre}: delivered-gross", z3.And(_near(V.Dur[0], V.L[0], z3.RealVal(1)), _near(V.Dur[1], V.L[1], z3.RealVal(1)), _near(V.Hsp, V.span, tol)), base, sample=sample, **kw)
+    rep.prove(f"{pre}: delivered", goal, base, sample=sample, **kw)
+
+
+CONFIGS2 = {  # integrator configurations of the two-burn runs: up to 5 integration segments per propagate() call
+    "quick": [((2,), 0, 14)],
+    "thorough": [((2,), 0, 14), ((1, 2), 0, 16), ((2,), 2, 20), ((3,), 1, 20)],
+}
+
+
+def o4(rep, kinds, mode, specs, cfgs):
+    ok, pin = pin_scipy()
+    if not ok:
+        rep.error("scipy-pin", f"the solve_ivp contract was read from another scipy: {pin}")
+        return
+    for cfg in cfgs:
+        _o4_cfg(rep, kinds, mode, specs, cfg)
+
+
+PINNED2 = [  # (T0, dt, s1, e1, s2, e2)
+    (60.0, 60.0, 65.0, 75.0, 90.0, 100.0), (60.0, 60.0, 90.0, 150.0, 160.0, 170.0), (60.0, 60.0, 70.0, 120.0, 130.0, 140.0), (60.0, 60.0, 70.0, 80.0, 130.0, 140.0),
+]
+
+
+def o3_stubval2(rep, tier):
+    """Differential validation of the contract in the two-burn regime (several integration segments per call): the thrust-on seconds of the real run
+    with RK45's own steps are a behaviour of the stub, for pinned inputs in both queue orders."""
+    import json
+    import subprocess
+    import sys
+
+    modes = ("chrono", "reversed") if tier == "quick" else tuple(QUEUE_MODES)
+    ds = [dict(zip(("T0", "dt") + TKEYS, pin), mode=mode, kinds=["burn", "burn"]) for pin in PINNED2 for mode in modes]
+    code = ("import json, sys; import harness.c15 as H\nfor d in json.loads(sys.argv[1]):\n    x, on, info = H._real_run2(d, True, False); print('ON', json.dumps(on), flush=True)")
+    try:
+        r = subprocess.run([sys.executable, "-c", code, json.dumps(ds)], capture_output=True, text=True, timeout=120)
+    except subprocess.TimeoutExpired:
+        rep.error("pinned", "the real two-step runs did not return within 120 s (normally < 1 s each)")
+        return
+    ons = [json.loads(line[3:]) for line in r.stdout.splitlines() if line.startswith("ON ")]
+    if len(ons) != len(ds):
+        rep.error("pinned", f"real run failed: {r.stderr[-500:]}")
+        return
+    cfg = CONFIGS2["quick"][0] if tier == "quick" else ((3,), 1, 20)
+    for d, on in zip(ds, ons):
+        pins = {k: d[k] for k in ("T0", "dt") + TKEYS}
+        V, disj = _paths2(rep, ("burn", "burn"), d["mode"], [(None, None, None, None)], cfg, pins=tuple(pins.items()))
+        label = f"pinned {d['mode']} T0={d['T0']} dt={d['dt']} burns=[{d['s1']},{d['e1']}],[{d['s2']},{d['e2']}]"
+        if disj is None:
+            return
+        if not disj:
+            rep.error(label, "no path")
+            continue
+        cons = [z3.Real(k) == rv(v) for k, v in pins.items()] + [z3.Or(*disj)]
+        rep.reachable(f"{label}: real thrust-on ({on[0]:.6f}, {on[1]:.6f}) s is a behaviour of the stub",
+                      cons + [_near(V.Dur[0], rv(on[0]), rv(TOL_T)), _near(V.Dur[1], rv(on[1]), rv(TOL_T)), z3.BoolVal(on[2] == 0.0)])
+
+
+# ------------------------------------------------------------------------------------------------------------------------
+# O5: history independence of the dynamics object: a call without scheduled events applies no thrust, whatever the previous call left behind
+# ------------------------------------------------------------------------------------------------------------------------
+HIST_VARIANTS = {"none": dict(station_keeping=None, scheduled_events=None), "empty": dict(station_keeping=[], scheduled_events=[]), "omitted": {}}
+HIST_ZS, HIST_ZE = ("lt0", "at0", "in0"), ("in1", "at2", "gt2")  # the burn's window contains the end T1 of the first call
+
+
+def _run_hist(variant, steps, calls):
+    """Call 1 [T0,T1] with a finite burn that is still on at T1, then call 2 [T1,T2] WITHOUT scheduled events on the same dynamics object and,
+    from the same state, on a fresh one."""
+    T0, dt, ts, te, jd0, a, g, x0 = _inputs_sym("burn")
+    T1, T2 = T0 + dt, T0 + dt + dt
+    assume(*_bounds(T0, dt, ts, te))
+    assume(z3.Or(*[_zone(ts.t, z, T0.t, T1.t, T2.t) for z in HIST_ZS]), z3.Or(*[_zone(te.t, z, T0.t, T1.t, T2.t) for z in HIST_ZE]))
+    dyn, fresh = _dynamics(), _dynamics()
+    dyn.init_julian_date = fresh.init_julian_date = jd0
+    ivp = SolveIvpContract(steps=steps, max_calls=calls, max_retrigger=0)
+    agent = _new_agent(T0, jd0)
+    row = _event_row("burn", jd0, ts, te, a)
+    from resonaate.agents.agent_base import Agent
+    kw = HIST_VARIANTS[variant]
+    with _World(ivp, g):
+        if bool((ts <= T1) & (te > T0)):
+            row.handleEvent(agent)
+        Agent.prunePropagateEvents(agent)
+        st1 = dyn.propagate(T0, T1, x0, station_keeping=[], scheduled_events=agent.propagate_event_queue)
+        left_on = dyn.finite_thrust is not None  # reachability guard only
+        st2 = dyn.propagate(T1, T2, np.array(list(st1), dtype=object), **kw)
+        st2f = fresh.propagate(T1, T2, np.array(list(st1), dtype=object), **kw)
+    return st1, st2, st2f, left_on
+
+
+def _real_hist(d, steer=False):
+    from resonaate.agents.agent_base import Agent
+    from resonaate.dynamics import celestial as CEL
+    from resonaate.dynamics.integration_events import finite_thrust as FT
+    from resonaate.dynamics.integration_events.finite_thrust import ScheduledFiniteBurn, eciBurn
+
+    T0, dt, ts, te = _times(d)
+    a = np.array(d.get("a", A_REPLAY["burn"]), dtype=float)
+    x = np.array(d.get("x0", X_FAR if steer else X_GEO), dtype=float)
+    kw = HIST_VARIANTS[d.get("variant", "none")]
+    dyn, fresh = _dynamics(), _dynamics()
+    agent = _new_agent(T0, None)
+    on2 = [0.0]
+    phase = [1]
+    real_ivp = CEL.solve_ivp
+
+    def spy(fun, t_span, y0, **k):
+        if steer:
+            k = dict(k, first_step=float(t_span[1]) - float(t_span[0]))
+        sol = real_ivp(fun, t_span, y0, **k)
+        if phase[0] == 2 and dyn.finite_thrust is not None:
+            on2[0] += float(sol.t[-1]) - float(t_span[0])
+        return sol
+
+    shadows = [shadow(CEL, solve_ivp=spy)]
+    if not os.environ.get("C15_REPLAY_RAY"):
+        shadows.append(shadow(FT, EventStack=_EventLog()))
+    for sh in shadows:
+        sh.__enter__()
+    try:
+        if ts <= T0 + dt and te > T0:
+            agent.appendPropagateEvent(ScheduledFiniteBurn(ts, te, partial(eciBurn, acc_vector=a), 7))
+        Agent.prunePropagateEvents(agent)
+        x1 = dyn.propagate(T0, T0 + dt, x, scheduled_events=agent.propagate_event_queue)
+        left_on = dyn.finite_thrust is not None
+        phase[0] = 2
+        x2 = dyn.propagate(T0 + dt, T0 + dt + dt, x1.copy(), **kw)
+        phase[0] = 3
+        x2f = fresh.propagate(T0 + dt, T0 + dt + dt, x1.copy(), **kw)
+    finally:
+        for sh in reversed(shadows):
+            sh.__exit__(None, None, None)
+    return x1, x2, x2f, on2[0], left_on, {"ts": ts, "te": te, "T0": T0, "dt": dt}
+
+
+def replay_hist(d):
+    """Reproduced = on the real code the event-free second call on the used dynamics object differs from the same call on a fresh object (or had a
+    thrust callable set)."""
+    x1, x2, x2f, on2, left_on, info = _real_hist(d)
+    diff = np.abs(x2 - x2f)
+    a = np.array(d.get("a", A_REPLAY["burn"]), dtype=float)
+    dv_sec = float(np.dot(x2[3:] - x2f[3:], a) / np.dot(a, a))
+    bad = on2 > 0 or float(diff[:3].max()) > 1e-9 or float(diff[3:].max()) > 1e-12
+    return bad, {"thrust_on_seconds_in_event_free_call": on2, "position_difference_to_fresh_object_km": float(np.linalg.norm(diff[:3])),
+                 "velocity_difference_to_fresh_object_in_seconds_of_thrust": dv_sec, "finite_thrust_left_set_by_call_1": bool(left_on),
+                 "variant": d.get("variant", "none"), "times": info}
+
+
+def o5_history(rep, tier):
+    ok, pin = pin_scipy()
+    if not ok:
+        rep.error("scipy-pin", f"the solve_ivp contract was read from another scipy: {pin}")
+        return
+    cfgs = [((2,), 0, 10), ((1,), 0, 10)] + ([((1, 2), 0, 12), ((3,), 0, 12)] if tier == "thorough" else [])
+    V = _Vars("burn")
+    H2, H2f = z3.Real("H2"), z3.Real("H2f")
+    syms = V.a + V.g
+
+    def coeff(base, one):
+        return z3.simplify(z3.substitute(base, *[(x, z3.RealVal(1 if x is one else 0)) for x in syms]))
+
+    for variant in HIST_VARIANTS:
+        for cfg in cfgs:
+            steps, retrig, calls = cfg
+            pre = f"events={variant}[{_cfg_tag(cfg)}]"
+
+            def inputs(m, variant=variant):
+                d = {"_replay": "hist", "variant": variant, "kind": "burn", "T0": mfloat(m, V.T0), "dt": mfloat(m, V.dt), "ts": mfloat(m, V.ts), "te": mfloat(m, V.te)}
+                for key, var in (("ts", V.ts), ("te", V.te)):
+                    rel = _grid_rel(m, var, V.T0, V.dt)
+                    if rel:
+                        d[key + "_rel"] = rel
+                return d
+
+            res = explore(lambda: _run_hist(variant, steps, calls), max_paths=2000, max_depth=500, branch_timeout_ms=10000)
+            disj, n_on = [], 0
+            for i, r in enumerate(res):
+                if r.exc is not None:
+                    rep.note(f"{pre} path {i} raised: {r.exc!r}"[:400])
+                    if isinstance(r.exc, ContractBudget):
+                        rep.undecided(f"{pre}: budget#{i}", f"{r.exc}")
+                    else:
+                        rep.prove(f"{pre}: no-exception#{i}", z3.BoolVal(False), r.constraints, timeout_ms=60000, inputs=inputs,
+                                  replay=lambda d: _raises(lambda: _real_hist(d)), sample="call with burn, then event-free call: no exception")
+                    continue
+                st1, st2, st2f, left_on = r.out
+                tm = lambda x: x.t if isinstance(x, SReal) else rv(x)  # noqa: E731
+                goals, hs, hfs = [], [], []
+                for c in range(3):
+                    b2, b2f = tm(st2[3 + c]) - tm(st1[3 + c]), tm(st2f[3 + c]) - tm(st1[3 + c])
+                    h, hf = coeff(b2, V.g[c]), coeff(b2f, V.g[c])
+                    goals += [b2 == V.g[c] * h, b2f == V.g[c] * hf]
+                    hs.append(h)
+                    hfs.append(hf)
+                goals += [hs[0] == h for h in hs[1:]] + [hfs[0] == h for h in hfs[1:]]
+                # pure ring identities are proved without hypotheses (fast); if one fails, the counterexample is taken inside the path's bounds so that it can be replayed
+                from symx.core import refute
+
+                ident = z3.And(*goals)
+                ok1 = rep.prove(f"{pre}: no-thrust#{i}", ident, [] if refute(ident, [], 20000).status == "unsat" else r.constraints, timeout_ms=20000, inputs=inputs, replay=replay_hist,
+                                sample="velocity change of the event-free call = g * H on the used dynamics object and on a fresh one (no multiple of the burn's acceleration): ring identity per path")
+                if steps == (1,):
+                    same = z3.And(*[tm(st2[c]) == tm(st2f[c]) for c in range(6)])
+                    rep.prove(f"{pre}: equals-fresh-object#{i}", same, [] if refute(same, [], 20000).status == "unsat" else r.constraints, timeout_ms=20000, inputs=inputs, replay=replay_hist,
+                              sample="full state returned by the event-free call on the used dynamics object = the same call on a fresh object (one integrator step per call: identical integrator choices)")
+                if ok1:
+                    disj.append(z3.And(*(r.constraints + [H2 == hs[0], H2f == hfs[0]])))
+                n_on += 1 if left_on else 0
+            rep.note(f"{pre}: paths={len(res)}, paths on which call 1 left Celestial.finite_thrust set={n_on}")
+            if not disj:
+                if res and all(r.exc is None for r in res):
+                    rep.note(f"{pre}: the event-free call applies a thrust on every path; the span check is skipped")
+                else:
+                    rep.error(f"{pre}: reach", "no usable path")
+                continue
+            if n_on == 0:
+                rep.error(f"{pre}: reach-left-on", "no path on which the first call ended with the thrust on: the obligation would be vacuous")
+            zc = [z3.Or(*[_zone(V.ts, z, V.T0, V.T1, V.T2) for z in HIST_ZS]), z3.Or(*[_zone(V.te, z, V.T0, V.T1, V.T2) for z in HIST_ZE])]
+            base = V.bounds() + zc + [z3.Or(*disj)]
+            for zs in HIST_ZS:
+                for ze in HIST_ZE:
+                    rep.reachable(f"{pre}: start {zs} / end {ze}", base + [_zone(V.ts, zs, V.T0, V.T1, V.T2), _zone(V.te, ze, V.T0, V.T1, V.T2)])
+            tol = rv(TOL_T)
+            rep.prove(f"{pre}: integrated-span", z3.And(_near(H2, V.dt, tol), _near(H2f, V.dt, tol)), base, timeout_ms=60000, inputs=inputs, replay=replay_hist,
+                      sample="the event-free call integrates the natural acceleration over T2 - T1 on both objects")
+
+
+def _raises(fn):
+    try:
+        fn()
+    except Exception as ex:  # noqa: BLE001
+        return True, {"raised": f"{type(ex).__name__}: {ex}"[:400]}
+    return False, {"raised": None}
+
+
+# ------------------------------------------------------------------------------------------------------------------------
 def replay_dispatch(d):
     """`./check C15 --replay <file>`: the replay that belongs to the item that produced the inputs."""
-    return {"o1": replay_o1, "affine": replay_affine, "hang": replay_hang, "raises": replay_raises}[d.get("_replay", "o1")](d)
+    return {"o1": replay_o1, "affine": replay_affine, "hang": replay_hang, "raises": replay_raises,
+            "o4": replay_o4, "affine2": replay_affine2, "hang2": replay_hang2, "raises2": replay_raises2, "hist": replay_hist}[d.get("_replay", "o1")](d)
 
 
 GROUPS = {"inside": ("in0", "in1"), "boundary": ("at0", "at1", "at2"), "outside": ("lt0", "gt2")}
 REPLAYS = {"O2-callables": replay_callables, "O2-prune": replay_prune, "O3-stub-validation": replay_dispatch}
 REPLAYS.update({f"O1-{kind}-end-{gname}": replay_dispatch for gname in GROUPS for kind in ("burn", "maneuver")})
+
+
+def _two_burn_obligations(tier):
+    """(name, kinds, mode, class specs, integrator configurations, description)"""
+    out = []
+    for cname, specs in TWO_CLASSES.items():
+        for mode in ("chrono", "reversed"):
+            out.append((f"O4-two-{cname}-{mode}", ("burn", "burn"), mode, specs, CONFIGS2[tier]))
+    if tier == "thorough":
+        for cname, specs in TWO_CLASSES.items():
+            for mode in ("chrono-prequeued", "reversed-windows"):
+                out.append((f"O4-two-{cname}-{mode}", ("burn", "burn"), mode, specs, CONFIGS2["quick"]))
+            for kinds in (("burn", "maneuver"), ("maneuver", "burn")):
+                for mode in ("chrono", "reversed"):
+                    out.append((f"O4-two-{cname}-{mode}-{kinds[0]}+{kinds[1]}", kinds, mode, specs, CONFIGS2["quick"]))
+        for cname, specs in TWO_UNIVERSE.items():
+            for mode in QUEUE_MODES:
+                out.append((f"O4-two-all-{cname}-{mode}", ("burn", "burn"), mode, specs, CONFIGS2["quick"]))
+    return out
+
+
+REPLAYS.update({t[0]: replay_dispatch for t in _two_burn_obligations("thorough")})
+REPLAYS["O5-history-independence"] = REPLAYS["O3-stub-validation-two"] = replay_dispatch
 
 
 def obligations(tier):
@@ -871,4 +1530,13 @@ def obligations(tier):
     obs.append(Ob("O2-callables", lambda rep: o2_callables(rep, tier), "both frames and both maneuver types produce the event class, interval and acceleration they name", 120))
     obs.append(Ob("O2-prune", lambda rep: o2_prune(rep, tier), "prunePropagateEvents keeps a finite thrust while time < t_e (one copy) and drops it after", 120))
     obs.append(Ob("O3-stub-validation", lambda rep: o3_stubval(rep, tier), "the real RK45 run's thrust-on time on pinned inputs is one of the behaviours the solve_ivp contract allows", 300))
+    obs.append(Ob("O3-stub-validation-two", lambda rep: o3_stubval2(rep, tier), "two burns: the real RK45 run's thrust-on times on pinned inputs (both queue orders) are behaviours the solve_ivp contract allows", 300))
+    obs.append(Ob("O5-history-independence", lambda rep: o5_history(rep, tier),
+                  "after a propagate() call that ended with a finite thrust on, a call WITHOUT scheduled events (None / [] / omitted) on the same dynamics object applies no thrust "
+                  "and returns what a fresh object returns", 300 if tier == "quick" else 900))
+    for name, kinds, mode, specs, cfgs in _two_burn_obligations(tier):
+        zdesc = " or ".join("(" + ", ".join(f"{k} in {'/'.join(zs) if zs else 'any zone'}" for k, zs in zip(TKEYS, spec)) + ")" for spec in specs)
+        obs.append(Ob(name, (lambda kinds, mode, specs, cfgs: lambda rep: o4(rep, kinds, mode, specs, cfgs))(kinds, mode, specs, cfgs),
+                      f"two finite thrusts ({'+'.join(kinds)}) of one agent, e1 + 1e-3 <= s2, queue mode {mode}, {zdesc}: each burn's delivered delta-v over two consecutive propagation steps",
+                      300 if tier == "quick" else 900))
     return obs
